@@ -1,6 +1,7 @@
 (* Correspondence driver: reads cases (one per line, tab separated, string fields hex encoded),
    runs the extracted Coq model, prints one result line per case. Hand written, trusted. *)
 open Model
+exception Case_timeout
 
 let explode s = List.init (String.length s) (String.get s)
 let implode l = let b = Buffer.create 16 in List.iter (Buffer.add_char b) l; Buffer.contents b
@@ -181,12 +182,17 @@ let handle id kind fields =
   | _ -> Printf.printf "%s\tSKIP\n" id
 
 let () =
+  Sys.set_signal Sys.sigalrm (Sys.Signal_handle (fun _ -> raise Case_timeout));
   try while true do
       let line = input_line stdin in
       match String.split_on_char '\t' line with
       | id :: kind :: fields ->
+        (* a budget per case (whole documents with many loop passes are slow in the extracted model): TIMEOUT = no model answer *)
+        ignore (Unix.alarm 20);
         (try handle id kind fields with
          | Stack_overflow -> Printf.printf "%s\tSTACKOVERFLOW\n" id
-         | Failure m -> Printf.printf "%s\tDRIVERFAIL\t%s\n" id m)
+         | Case_timeout -> Printf.printf "%s\tTIMEOUT\n" id
+         | Failure m -> Printf.printf "%s\tDRIVERFAIL\t%s\n" id m);
+        ignore (Unix.alarm 0)
       | _ -> ()
     done with End_of_file -> ()
